@@ -71,7 +71,7 @@ Alternatives(kind, line) ==
     LET six == line[3].t = B("TCP6")
     IN  CASE kind = "kw"    -> IF Level = 1 THEN { B("proxy"), B("PROX"), << >> }
                                ELSE { B("proxy"), B("PROX"), B("PROXYY"), << >>, B("P"), B("PROXZ") }
-          [] kind = "sp"    -> IF Level = 1 THEN { B("  "), << >> } ELSE { B("  "), B("\t"), << >> }
+          [] kind = "sp"    -> IF Level = 1 THEN { B("  "), << >>, << 13 >> } ELSE { B("  "), B("\t"), << >>, << 13 >>, << 10 >>, << 13, 10 >> }
           [] kind = "proto" -> IF Level = 1 THEN { B("tcp4"), B("TCP"), B("UNKNOWN"), << >> }
                                ELSE { B("tcp4"), B("TCP"), B("TCP5"), B("TCP44"), << >>, B("UNKNOWN"), B("UNKNOW"), B("U"),
                                       IF six THEN B("TCP4") ELSE B("TCP6") }
@@ -91,8 +91,8 @@ Alternatives(kind, line) ==
           [] OTHER -> {}
 
 Trailers ==
-    IF Level = 1 THEN { << >>, B("5X") }
-    ELSE { << >>, B("X"), B("5"), << 13, 10 >>, << 10 >>, << 0 >>, B(" \n"), B("PROXY UNKNOWN\r\n"),
+    IF Level = 1 THEN { << >>, B("5X"), << 255, 22, 3 >> }
+    ELSE { << >>, B("X"), B("5"), << 13, 10 >>, << 10 >>, << 0 >>, B(" \n"), B("PROXY UNKNOWN\r\n"), << 255, 22, 3 >>, << 226, 130 >>,
            V2!Signature \o << 33, 17, 0, 12, 1, 2, 3, 4, 5, 6, 7, 8, 0, 9, 1, 0 >> }
 
 (***************************************************************************)
@@ -128,7 +128,8 @@ Streams ==
                                            k \in (j + 1)..Len(Bases[i]) } :
                                    j \in 1..Len(Bases[i]) } :
                            i \in {1, 3, 6} \cap 1..Len(Bases) }
-    IN  { [bytes |-> s.bytes \o t, tag |-> s.tag] : s \in b0 \cup b1 \cup b2, t \in Trailers }
+    IN  { [bytes |-> s.bytes \o t, tag |-> s.tag] : s \in b0 \cup b1, t \in Trailers }
+        \cup { [bytes |-> s.bytes \o t, tag |-> s.tag] : s \in b2, t \in { << >>, B("5") } }
 
 (***************************************************************************)
 (* Behaviours                                                              *)
@@ -162,6 +163,7 @@ InvC03 == NoFails(C03_Fails(buf, verdict))
 InvC04 == NoFails(C04_Fails(buf, verdict, hprev))
 InvC05 == NoFails(C05_Fails(buf, verdict, hprev))
 InvC06 == NoFails(C06_Fails(buf, verdict))
+InvC08 == NoFails(C08_StreamFails(buf, verdict))
 InvC12 == NoFails(C12_Eval(tag, buf, verdict).f)
 InvC15 == NoFails(C15_Fails(buf, verdict))
 InvC16 == NoFails(C16_Fails(buf, verdict))
